@@ -123,7 +123,10 @@ def from_xir(xir_prog: xir.Program) -> Program:
             else:
                 gate() | regrefs  # pylint:disable=expression-not-assigned,pointless-statement
 
-    prog._target = xir_prog.options.get("_target_", None)  # pylint: disable=protected-access
+    # ``to_xir`` writes the option "target"
+    prog._target = xir_prog.options.get(  # pylint: disable=protected-access
+        "target", xir_prog.options.get("_target_", None)
+    )
 
     if "shots" in xir_prog.options:
         prog.run_options["shots"] = xir_prog.options["shots"]
@@ -284,7 +287,12 @@ def to_xir(prog: Program, **kwargs) -> xir.Program:
                     xir_prog.add_declaration(gate_decl)
 
             params = []
-            for i, a in enumerate(cmd.op.p):
+            op_params = list(cmd.op.p)
+            if getattr(cmd.op, "dagger", False) and op_params:
+                # XIR has no inverse marker: write the inverse gate,
+                # which is obtained by negating the first parameter
+                op_params[0] = -op_params[0]
+            for i, a in enumerate(op_params):
                 if sfpar.par_is_symbolic(a):
                     # try to evaluate symbolic parameter
                     try:
